@@ -4,6 +4,7 @@ import (
 	"bufio"
 	"fmt"
 	"io"
+	"os"
 	"os/exec"
 	"sort"
 	"strconv"
@@ -38,8 +39,17 @@ func DeclOf(name string) (string, bool) {
 	return d, ok
 }
 
+var varNames sync.Map
+
+// IsVar reports whether name was declared through NewVar (a constant symbol, not a function).
+func IsVar(name string) bool {
+	_, ok := varNames.Load(name)
+	return ok
+}
+
 // NewVar declares and returns a fresh constant symbol.
 func NewVar(name string, k Kind, w int) *Term {
+	varNames.Store(name, true)
 	t := Var(name, k, w)
 	Declare(name, fmt.Sprintf("(declare-fun %s () %s)", name, t.SortString()))
 	return t
@@ -270,6 +280,11 @@ func (s *Solver) Check(asserts []*Term, want []*Term) (Result, Model, string) {
 	}
 	text := b.String()
 	order := []Backend{Z3, Z3New, CVC5}
+	if os.Getenv("VX_PRIMARY") == "cvc5" && strings.Contains(text, "String") {
+		order = []Backend{CVC5, Z3, Z3New}
+	} else if os.Getenv("VX_PRIMARY") == "z3new" {
+		order = []Backend{Z3New, Z3, CVC5}
+	}
 	if needsStringsSolver(text) {
 		order = []Backend{CVC5, Z3New, Z3}
 	} else if needsBVInt(text) {
